@@ -93,7 +93,7 @@ def scenario(rng, mix=None, adversarial=False):
         else:
             sc["Tperm"] = rng.uniform(120.0, T)
     elif mode == "press":
-        sc["pperm"] = gen.as_given(rng, rng.uniform(0.0, 100.0) if rng.random() < 0.7 else gen.logu(rng, 1e-3, 100.0))
+        sc["pperm"] = gen.as_given(rng, rng.uniform(0.0, 100.0) if rng.random() < 0.6 else gen.logu(rng, 1e-9, 100.0))
     elif mode == "press0":
         sc["pperm"] = 0.0
     return sc
@@ -172,11 +172,13 @@ def get_wrapper():
     return _W
 
 
-def record_one(tw, sc, stats, twin=True, budget=None):
-    """Run one scenario on the real solver and append its trace; returns the outcome."""
+def record_one(tw, sc, stats, twin=True, budget=None, perv=None):
+    """Run one scenario on the real solver and append its trace; returns the outcome.
+    perv: the Pervaporation object to use (default: a fresh one) - the same object may be asked again, e.g. with a finer precision"""
     w = get_wrapper()
     mix = sc["mix"]
-    perv = pv.Pervaporation(membrane=pv.Membrane(name="verif"), mixture=mix)
+    if perv is None:
+        perv = pv.Pervaporation(membrane=pv.Membrane(name="verif"), mixture=mix)
     feed = pv.Composition(p=sc["xw"], type=sc["ctype"])
     pf = pv.get_partial_pressures(sc["T"], mix, feed, sc["model"])
     tr = []
@@ -248,6 +250,15 @@ def record_job(job):
     stats = {"nontrivial": set(), "outcomes": {}}
     for _ in range(n):
         sc = scenario(rng, adversarial=rng.random() < adv)
+        if rng.random() < 0.25:
+            # the SAME object solves the SAME state twice: first coarsely, then to a finer precision (each answer must meet its own)
+            perv = pv.Pervaporation(membrane=pv.Membrane(name="verif"), mixture=sc["mix"])
+            fine = dict(sc)
+            sc["prec"] = max(sc["prec"], rng.choice([1e-3, 3e-4, 1e-4]))
+            fine["prec"] = min(fine["prec"], sc["prec"] * rng.choice([1e-2, 1e-4, 1e-5]))
+            record_one(tw, sc, stats, budget=budget, perv=perv)
+            record_one(tw, fine, stats, budget=budget, perv=perv)
+            continue
         record_one(tw, sc, stats, budget=budget)
     return tw.traces, stats
 
